@@ -152,6 +152,25 @@ def r17_3(ctx):
     ctx.check(rets == [want], "bspline_derivative = scale * forward difference of the coefficients", detail="derivative coefficients", expected=want, found=rets, fi=d, sample={"formula": str(want)})
 
 
+@rule("R17.6", min_instances=2, desc="Greville points: order-0 coefficients sit at the interval midpoints; higher orders are knot averages whose weights sum to one")
+def r17_6(ctx):
+    P = ctx.prog
+    ms = P.modules["rockit/splines/micro_spline.py"]
+    P._consulted.add(ms.relpath)
+    g = ms.functions.get("get_greville_points")
+    if g is None:
+        raise AnalysisError("micro_spline.get_greville_points missing")
+    xi, d = g.params
+    sc = ctx.scope(g)
+    rets = [r for r in walk_no_nested(g.node) if isinstance(r, ast.Return)]
+    r0 = [r for r in rets if any(ast.unparse(t).replace(" ", "") == "%s==0" % d and p for t, p in sc.guards(r))]
+    want = Norm(None).poly(ast.parse("(%s[0,1:]+%s[0,:-1])/2" % (xi, xi), mode="eval").body)
+    ctx.check(len(r0) == 1 and Norm(None).poly(r0[0].value) == want, "get_greville_points(d=0) = interval midpoints", detail="order-0 coefficients placed with a uniform-grid shortcut",
+              expected="(xi[1:]+xi[:-1])/2", found="; ".join(ast.unparse(r.value) for r in r0), fi=g, sample={"d0": [ast.unparse(r.value) for r in r0]})
+    chk = [c for c in walk_no_nested(g.node) if isinstance(c, ast.Call) and ast.unparse(c.func).endswith("assert_allclose")]
+    ctx.check(len(chk) == 1 and "sum1(S)" in ast.unparse(chk[0]) and ast.unparse(chk[0].args[1]) == "1", "get_greville_points averaging weights are checked to sum to one", detail="weights", expected="assert_allclose(sum1(S), 1)", found="; ".join(ast.unparse(c)[:60] for c in chk), fi=g)
+
+
 @rule("R17.4", min_instances=8, desc="pack order of signal values handed to the dynamics")
 def r17_4(ctx):
     check_pack_order(ctx)
@@ -171,3 +190,9 @@ def r17_5(ctx):
     has_guard(ctx, g, lambda t, k: "localize_t0" in t and "localize_T" in t and k == "assert", "SplineMethod: localised grids rejected", "grid formulation", "assert not localize_t0 and not localize_T")
     w = [c for c in walk_no_nested(f.node) if isinstance(c, ast.Assert) and 'weight' in ast.unparse(c.test)]
     ctx.check(len(w) == 1 and "==1.0" in ast.unparse(w[0].test).replace(" ", ""), "SplineMethod: only pure integrator chains (unit weights)", detail="chain weights", expected="assert weight == 1.0", found="; ".join(ast.unparse(x) for x in w), fi=f)
+
+
+@rule("R17.7", min_instances=13, desc="SplineMethod places every bound of a (grouped) path constraint: inventory of its constraint sites (shared with C04)")
+def r17_7(ctx):
+    from .c04 import r04_9
+    r04_9(ctx)
